@@ -170,6 +170,13 @@ rewrite /ri_qdivides -/e -/q; apply/andP; split; first (apply/andP; split).
 - by apply/peqbP; rewrite Poly_pscale Poly_pmul -dE r0 addr0.
 Qed.
 
+(* the cached end-point signs of an interval item are the true signs (lp_algebraic_number_t: sgn_at_a, sgn_at_b) *)
+Definition sign_cached (x : ri_anum) : bool :=
+  match x with
+  | RPoint _ => true
+  | RItv p a b sa sb => Z.eqb sa (psgn_at p (rd_x a)) && Z.eqb sb (psgn_at p (rd_x b))
+  end.
+
 (* ====================================================================== one square-free factor *)
 Section Factor.
 Variable R : rcfType.
@@ -393,12 +400,12 @@ Lemma Poly_s0_neq0 : Poly s0 != 0.
 Proof. by rewrite Poly_ppp_eq0. Qed.
 
 Lemma anum_item (a0 b0 : rdy) x : anum_ok a0 b0 x ->
-  [/\ item_wf (item_of_anum x), item_ok g (item_of_anum x) & item_in a0 b0 (item_of_anum x)].
+  [/\ item_wf (item_of_anum x), item_ok g (item_of_anum x), item_in a0 b0 (item_of_anum x) & sign_cached x].
 Proof.
 case: x => [q|p a b sa sb] /=.
   move=> [ab z]; split=> //; first exact: Zltb0_pow.
   by rewrite ZeqbP -psgn_s0 ?rd_pow_gt0 //; apply/eqP.
-move=> [-> la ab lb [Ea Eb neg]]; split.
+move=> [-> la ab lb [Ea Eb neg]]; split; last by rewrite -Ea -Eb !Z.eqb_refl.
 - by rewrite !Zltb0_pow /= -(dval_lt R).
 - rewrite (rdvd_qdivides Poly_s0_neq0 g0' (ppp_dvd g)) /=.
   by move: neg; rewrite Ea Eb /= => neg; apply/Z.ltb_lt; lia.
@@ -427,7 +434,7 @@ Proof. by []. Qed.
 
 Definition iso_ok (a b : rdy) (l : seq ri_anum) (a_ch b_ch : nat) : Prop :=
   let its := map item_of_anum l in
-  [/\ all item_wf its, all (item_ok g) its, items_sorted its, all (item_in a b) its
+  [/\ all item_wf its /\ all sign_cached l, all (item_ok g) its, items_sorted its, all (item_in a b) its
      & (size l + b_ch = a_ch)%N].
 
 Lemma isolateP fuel (a b : rdy) (a_ch b_ch : nat) l : dval a < dval b -> a_ch = Vd a -> b_ch = Vd b ->
@@ -444,9 +451,9 @@ have splitP : isplit f a b (Vd a) (Vd b) = Some l -> iso_ok a b l (Vd a) (Vd b).
     move=> /(IH _ _ _ _ l am erefl E2) [h1 h2 h3 h4 h5]; split=> //.
     by apply: sub_all h4 => it; apply: item_in_mono => //; exact: ltW.
   case E1: (lp_isolate f S a _ _ _) => [l1|] //; case E2: (lp_isolate f S _ b _ _) => [r1|] // [<-].
-  have [a1 a2 a3 a4 a5] := IH _ _ _ _ _ am erefl erefl E1.
-  have [b1 b2 b3 b4 b5] := IH _ _ _ _ _ mb erefl erefl E2.
-  split; rewrite /= ?map_cat ?all_cat ?a1 ?b1 ?a2 ?b2 //.
+  have [[a1 a1'] a2 a3 a4 a5] := IH _ _ _ _ _ am erefl erefl E1.
+  have [[b1 b1'] b2 b3 b4 b5] := IH _ _ _ _ _ mb erefl erefl E2.
+  split; rewrite /= ?map_cat ?all_cat ?a1 ?b1 ?a1' ?b1' ?a2 ?b2 //.
   - exact: (sorted_cat a1 b1 a3 b3 a4 b4).
   - apply/andP; split.
       by apply: sub_all a4 => it; apply: item_in_mono => //; exact: ltW.
@@ -456,13 +463,13 @@ rewrite lp_isolate_S.
 case: Z.eqb_spec => [tot1|_]; last exact: splitP.
 case: Z.eqb_spec => [bz|/eqP bnz].
   move=> [<-]; have okb : anum_ok a b (RPoint b) by split=> //; rewrite ab lexx.
-  have [w o i] := anum_item okb; split; rewrite /= ?andbT //.
+  have [w o i sc] := anum_item okb; split; rewrite /= ?andbT //.
   by move: (Vd a) (Vd b) tot1 => u v; lia.
 case: Z.eqb_spec => [az|/eqP anz] /=; first exact: splitP.
 case E: lp_anum_construct => [x|] // [<-].
 have V1 : Vd a = (Vd b + 1)%N by lia.
 have neg := one_root_sign_change ab V1 anz bnz.
-have [w o i] := anum_item (construct_ok E ab neg).
+have [w o i sc] := anum_item (construct_ok E ab neg).
 split; rewrite /= ?andbT //.
 by move: (Vd a) (Vd b) tot1 => u v; lia.
 Qed.
@@ -488,7 +495,7 @@ Definition lp_isolate_one (fuel : nat) : option (list ri_anum) :=
 
 Theorem lp_isolate_one_ok fuel l :
   (Z.eqb (List.nth 0 (pnorm g) 0%ZZ) 0 -> g = [:: 0%ZZ; 1%ZZ]) ->
-  lp_isolate_one fuel = Some l -> check_isolation g (map item_of_anum l).
+  lp_isolate_one fuel = Some l -> check_isolation g (map item_of_anum l) && all sign_cached l.
 Proof.
 move=> gx; rewrite /lp_isolate_one; case: ifP => [z|_].
   by move=> [<-]; rewrite (gx z).
@@ -503,11 +510,11 @@ have nzg : ~~ pis_zero g by rewrite -(PR_eq0 R).
 have cc : certified_count g = Some (size (rootsR (PR g))).
   by rewrite certified_count_total // (count_real_roots_correct R).
 case: Nat.ltb_spec => [lt|ge].
-  move=> /(isolateP ab Ea Eb) [h1 h2 h3 h4 h5].
+  move=> /(isolateP ab Ea Eb) [[h1 h1'] h2 h3 h4 h5]; rewrite h1' andbT.
   rewrite /check_isolation !forallbE nzg h1 h2 h3 cc /=; apply/Nat.eqb_eq.
   have -> : length (map item_of_anum l) = size l by rewrite -[LHS]/(size _) size_map.
   by move: (size l) (sturm_var S MInf) (sturm_var S PInf) (size _) (count _ _) h5 Vab tot T2 csz Ea Eb => *; lia.
-move=> [<-]; rewrite /check_isolation nzg cc /=; apply/Nat.eqb_eq.
+move=> [<-]; rewrite /check_isolation nzg cc /= andbT; apply/Nat.eqb_eq.
 by move: (sturm_var S MInf) (sturm_var S PInf) (size _) (count _ _) Vab tot T2 csz Ea Eb => *; lia.
 Qed.
 
@@ -515,7 +522,7 @@ End Factor.
 
 (* ====================================================================== all the factors *)
 Definition chk_factor (gk : seq Z * nat) (l : seq ri_anum) : bool :=
-  check_isolation gk.1 (map item_of_anum l).
+  check_isolation gk.1 (map item_of_anum l) && all sign_cached l.
 
 Lemma lp_isolate_factors_cons fuel (g : seq Z) (rest : seq (seq Z * seq (seq Z))) :
   lp_isolate_factors fuel ((g, lp_sturm_sequence g) :: rest)
@@ -565,7 +572,7 @@ Lemma all2_size (fs : seq (seq Z * nat)) (ls : seq (seq ri_anum)) : all2 chk_fac
   size (flatten ls) = (\sum_(gk <- fs) size (rootsR (PR gk.1)))%N.
 Proof.
 elim: fs ls => [|gk fs IH] [|l ls] //=; first by rewrite big_nil.
-move=> /andP[c /IH e]; rewrite size_cat big_cons e; congr addn.
+move=> /andP[/andP[c _] /IH e]; rewrite size_cat big_cons e; congr addn.
 by have [_ /denu_dens/dens_size] := @check_isolation_exact R _ _ c; rewrite size_map.
 Qed.
 
